@@ -65,6 +65,11 @@ def generate(tier, rng):
             c = fc.mk("light", False, k, st + [call])
             c["loglevel"] = 0
             yield c
+    for n0, ops in fc.wide_histories(rng, tier, faults=False):
+        fl = rng.choice(["nm", "light"])
+        c = fc.mk(fl, False, n0, ops, cls=(rng.choice(fc.NM_CLASSES) if fl == "nm" else None))
+        c["loglevel"] = 0
+        yield c
     for _ in range(500 if tier == "quick" else 8000):
         n0 = rng.randrange(3, 8)
         fl = rng.choice(["nm", "light"])
